@@ -464,6 +464,19 @@ func (fx *FnExec) callWithContract(in ssa.Instruction, c *ssa.CallCommon, ct *Co
 		}
 		fx.assume(t.S)
 	}
+	// ghost updates performed by the callee
+	for _, gname := range sortedKeys(ct.GhostSet) {
+		g := fx.W.Contracts.ghost(gname)
+		if g == nil {
+			continue
+		}
+		t, err := fx.evalC(ct.GhostSet[gname].ast, env2)
+		if err != nil {
+			fx.outside = append(fx.outside, fmt.Sprintf("call %s ghostset %s: %v", ct.Name, gname, err))
+			continue
+		}
+		fx.cur.gh[gname] = fx.define("gh_"+gname, g.Sort, t.S)
+	}
 	fx.usedContracts(ct)
 	return result
 }
